@@ -136,4 +136,476 @@ theorem stepD_healthy (C : Cfg) (s : St) (dt : ℚ) (cd : CommD) (swF : List Boo
     | cons a as ih => intro x; simp only [List.foldl_cons]; rw [mgLoopD_healthy C x a dt cd swF h]; exact ih _
   rw [kd, km]
 
+/-- the distribution controller's loop with an arbitrary component check -/
+def distLoopA' (C : Cfg) (s : St) (n : Nat) (dt : ℚ) (chk : St → St) : St :=
+  let nc := C.nets.getD n default
+  let s1 := { s with timer := s.timer.set n (tick (gr s.timer n) dt) }
+  let s2 := if gb s1.cbOpen nc.cb && gr s1.timer n ≤ 0 then { s1 with check := s1.check.set n true } else s1
+  let s3 := if gb s2.check n then
+      let a := chk s2
+      let b := nc.children.foldl (fun s m =>
+        if gb s.cbOpen (C.nets.getD m default).cb then { s with pTimer := s.pTimer.set m (gr s.timer n) } else s) a
+      { b with check := b.check.set n false }
+    else s2
+  checkBreakerManually C s3 n
+
+/-- the microgrid controller's loop with an arbitrary component check -/
+def mgLoopA' (C : Cfg) (s : St) (n : Nat) (dt : ℚ) (chk : St → St) : St :=
+  let nc := C.nets.getD n default
+  let t1 := tick (gr s.timer n) dt
+  let t2 := if gr s.pTimer n > t1 then gr s.pTimer n else t1
+  let s1 := { s with timer := s.timer.set n t2, pTimer := s.pTimer.set n (tick (gr s.pTimer n) dt) }
+  let s2 := if gb s1.cbOpen nc.cb && gr s1.timer n ≤ 0 then { s1 with check := s1.check.set n true } else s1
+  let s3 := if gb s2.check n then
+      let a := chk s2
+      { a with check := a.check.set n false }
+    else s2
+  checkBreakerManually C s3 n
+
+/-! ### the first invariant (no failed line in service behind a closed breaker) with devices in trouble -/
+
+theorem reported_of_failed (C : Cfg) (s : St) (cd : CommD) (k : Nat)
+    (h : anyFailed s (C.secs.getD k default).lines = true) : reportedFail C s cd k = true := by
+  unfold anyFailed at h
+  unfold reportedFail
+  rw [List.any_eq_true] at h ⊢
+  obtain ⟨l, hl, hf⟩ := h
+  exact ⟨l, hl, by rw [hf]; rfl⟩
+
+theorem flagStepD_spec {C : Cfg} (w : WF C) (n : Nat) (hn : n < C.nets.length) (cd : CommD) (acc : St × List Bool) (h : Inv C acc.1) (k : Nat)
+    (hk : k ∈ (netOf C n).secs) :
+    Inv C (flagStepD C n cd acc k).1 ∧ (flagStepD C n cd acc k).1.failed = acc.1.failed ∧ (flagStepD C n cd acc k).1.conn = acc.1.conn ∧
+    (flagStepD C n cd acc k).1.cbOpen = acc.1.cbOpen ∧
+    (flagStepD C n cd acc k).1.secConn = (if reportedFail C acc.1 cd k then acc.1.secConn.set k false else acc.1.secConn) := by
+  obtain ⟨s, swF⟩ := acc
+  simp only at h ⊢
+  unfold flagStepD
+  simp only []
+  by_cases hf : reportedFail C s cd k = true
+  · rw [if_pos hf, if_pos hf]
+    have hflen : n < s.failedSecs.length := by rw [h.sz.failedSecs]; exact hn
+    have h1 : Inv C { s with failedSecs := s.failedSecs.set n (addUnique (s.failedSecs.getD n []) k) } := h.addFailed n k hn hk
+    have hin : k ∈ ({ s with failedSecs := s.failedSecs.set n (addUnique (s.failedSecs.getD n []) k) } : St).failedSecs.getD n [] := by
+      show k ∈ (s.failedSecs.set n _).getD n []
+      rw [getD_set_self _ _ _ _ hflen]
+      unfold addUnique; split_ifs with hc
+      · simpa using hc
+      · simp
+    have h2 := Inv.flag w h1 n k hn hk hin
+    have rf := remFold_fields (disconnectTimeD C cd swF k).1 (C.secs.getD k default).lines
+      { s with secConn := s.secConn.set k false, failedSecs := s.failedSecs.set n (addUnique (s.failedSecs.getD n []) k),
+               timer := (s.timer.set n (gr s.timer n + sensSum C cd k)).set n
+                 (gr (s.timer.set n (gr s.timer n + sensSum C cd k)) n + ((if needSens C cd.cm k then C.T else 0) + (disconnectTimeD C cd swF k).1)) }
+    simp only at rf
+    obtain ⟨r1, r2, r3, r4, r5, r6⟩ := rf
+    refine ⟨?_, r2, r1, r3, r4⟩
+    exact h2.congr r1 r2 r3 r4 r5 (by rw [r6])
+  · rw [if_neg hf, if_neg hf]
+    exact ⟨h.congr rfl rfl rfl rfl rfl rfl, rfl, rfl, rfl, rfl⟩
+
+theorem flagAllD {C : Cfg} (w : WF C) (n : Nat) (hn : n < C.nets.length) (cd : CommD) (ks : List Nat) (acc : St × List Bool) (h : Inv C acc.1)
+    (hks : ∀ k ∈ ks, k ∈ (netOf C n).secs) : FlagAll C ks acc.1 (ks.foldl (flagStepD C n cd) acc).1 := by
+  induction ks generalizing acc with
+  | nil => exact ⟨h, rfl, rfl, rfl, fun _ hj => hj, fun k hk => by cases hk⟩
+  | cons a as ih =>
+    simp only [List.foldl_cons]
+    have ha := hks a List.mem_cons_self
+    obtain ⟨i1, f1, c1, b1, sc1⟩ := flagStepD_spec w n hn cd acc h a ha
+    have r := ih (flagStepD C n cd acc a) i1 (fun k hk => hks k (List.mem_cons_of_mem _ hk))
+    have mono1 : ∀ j, gb (flagStepD C n cd acc a).1.secConn j = true → gb acc.1.secConn j = true := by
+      intro j hj; rw [sc1] at hj
+      split_ifs at hj
+      · exact (gb_set_true_imp _ _ _ hj).1
+      · exact hj
+    have nf_eq : ∀ k, NoFailedIn C (flagStepD C n cd acc a).1 k ↔ NoFailedIn C acc.1 k := by
+      intro k; unfold NoFailedIn; rw [f1]
+    refine ⟨r.inv, r.failed.trans f1, r.conn.trans c1, r.cbOpen.trans b1, fun j hj => mono1 j (r.secMono j hj), ?_⟩
+    intro k hk hsc
+    rcases List.mem_cons.mp hk with rfl | hk'
+    · have h1 := r.secMono k hsc
+      rw [sc1] at h1
+      by_cases hf : reportedFail C acc.1 cd k = true
+      · rw [if_pos hf] at h1
+        have hklt : k < acc.1.secConn.length := by rw [h.sz.secConn]; exact w.sec_lt n hn k ha
+        rw [gb_set_self _ _ _ hklt] at h1; exact absurd h1 (by simp)
+      · apply (anyFailed_false_iff C acc.1 k).mp
+        cases hx : anyFailed acc.1 (secOf C k).lines
+        · rfl
+        · exact absurd (reported_of_failed C acc.1 cd k hx) hf
+    · exact (nf_eq k).mp (r.clear k hk' hsc)
+
+theorem recoStepD_spec {C : Cfg} (w : WF C) (n : Nat) (hn : n < C.nets.length) (cd : CommD) (s : St) (h : Inv C s) (hA : AllClear C s n)
+    (k : Nat) (hk : k ∈ (netOf C n).secs) :
+    Inv C (recoStepD C n cd s k) ∧ AllClear C (recoStepD C n cd s k) n ∧ (recoStepD C n cd s k).failed = s.failed ∧
+    (recoStepD C n cd s k).cbOpen = s.cbOpen := by
+  set s0 : St := { s with timer := s.timer.set n (gr s.timer n + sensSum C cd k) } with hs0
+  have h0 : Inv C s0 := h.congr rfl rfl rfl rfl rfl rfl
+  have a0 : AllClear C s0 n := hA.congr rfl rfl
+  by_cases hf : reportedFail C s cd k = true
+  · have : recoStepD C n cd s k = s0 := by unfold recoStepD; simp only []; rw [if_pos hf]
+    rw [this]; exact ⟨h0, a0, rfl, rfl⟩
+  · have hnf : anyFailed s0 (C.secs.getD k default).lines = false := by
+      cases hx : anyFailed s0 (C.secs.getD k default).lines
+      · rfl
+      · exact absurd (reported_of_failed C s cd k hx) hf
+    have : recoStepD C n cd s k = recoStep C n s0 k := by
+      unfold recoStepD recoStep
+      simp only []
+      rw [if_neg hf, hnf]
+      simp only [Bool.false_eq_true, if_false]
+      rfl
+    rw [this]
+    exact recoStep_spec w n hn s0 h0 a0 k hk
+
+theorem recoAllD {C : Cfg} (w : WF C) (n : Nat) (hn : n < C.nets.length) (cd : CommD) (ks : List Nat) (s : St) (h : Inv C s)
+    (hA : AllClear C s n) (hks : ∀ k ∈ ks, k ∈ (netOf C n).secs) :
+    Inv C (ks.foldl (recoStepD C n cd) s) ∧ AllClear C (ks.foldl (recoStepD C n cd) s) n := by
+  induction ks generalizing s with
+  | nil => exact ⟨h, hA⟩
+  | cons a as ih =>
+    simp only [List.foldl_cons]
+    obtain ⟨i1, a1, _, _⟩ := recoStepD_spec w n hn cd s h hA a (hks a List.mem_cons_self)
+    exact ih (recoStepD C n cd s a) i1 a1 (fun k hk => hks k (List.mem_cons_of_mem _ hk))
+
+/-- the sensor check with devices in trouble keeps the invariant and leaves every in-service section free of failed lines -/
+theorem Inv.checkSensD {C : Cfg} {s : St} (w : WF C) (h : Inv C s) (n : Nat) (hn : n < C.nets.length) (cd : CommD) (swF : List Bool) :
+    Inv C (checkSensorsD C s n cd swF).1 ∧ AllClear C (checkSensorsD C s n cd swF).1 n := by
+  unfold checkSensorsD
+  simp only []
+  have fa := flagAllD w n hn cd ((netOf C n).secs.filter (fun k => gb s.secConn k)) (s, swF) h (fun k hk => (List.mem_filter.mp hk).1)
+  have hA : AllClear C (((netOf C n).secs.filter (fun k => gb s.secConn k)).foldl (flagStepD C n cd) (s, swF)).1 n := by
+    intro k hk hsc l hl
+    rw [fa.failed]
+    have hs := fa.secMono k hsc
+    exact fa.clear k (List.mem_filter.mpr ⟨hk, hs⟩) hsc l hl
+  exact recoAllD w n hn cd ((netOf C n).secs.filter (fun k => !gb s.secConn k)) _ fa.inv hA (fun k hk => (List.mem_filter.mp hk).1)
+
+theorem distLoopD_fst (C : Cfg) (s : St) (n : Nat) (dt : ℚ) (cd : CommD) (swF : List Bool) :
+    (distLoopD C s n dt cd swF).1 =
+      distLoopA' C s n dt (fun x => (checkSensorsD C x n cd swF).1) := by
+  unfold distLoopD distLoopA'
+  simp only []
+  split_ifs <;> rfl
+
+theorem mgLoopD_fst (C : Cfg) (s : St) (n : Nat) (dt : ℚ) (cd : CommD) (swF : List Bool) :
+    (mgLoopD C s n dt cd swF).1 =
+      mgLoopA' C s n dt (fun x => (checkSensorsD C x n cd swF).1) := by
+  unfold mgLoopD mgLoopA'
+  simp only []
+  split_ifs <;> rfl
+
+theorem Inv.distLoopA' {C : Cfg} {s : St} (w : WF C) (h : Inv C s) (n : Nat) (hn : n < C.nets.length) (dt : ℚ) (chk : St → St)
+    (hchk : ∀ s2, Inv C s2 → Inv C (chk s2) ∧ AllClear C (chk s2) n) : Inv C (distLoopA' C s n dt chk) := by
+  unfold Relsad.Control.distLoopA'
+  simp only []
+  have h1 : Inv C { s with timer := s.timer.set n (tick (gr s.timer n) dt) } := h.congr rfl rfl rfl rfl rfl rfl
+  set s1 : St := { s with timer := s.timer.set n (tick (gr s.timer n) dt) } with hs1
+  have := Inv.loopCoreG w n hn s1 h1 chk hchk
+    (fun a => let b := (C.nets.getD n default).children.foldl (fun (s : St) m =>
+        if gb s.cbOpen (C.nets.getD m default).cb then { s with pTimer := s.pTimer.set m (gr s.timer n) } else s) a
+      { b with check := b.check.set n false })
+    (by
+      intro a
+      simp only []
+      obtain ⟨k1, k2, k3, k4, k5, k6⟩ := childFold_fields C n (C.nets.getD n default).children a
+      refine ⟨k1, k2, k3, k4, k5, ?_⟩
+      show (List.set _ n false).length = a.check.length
+      rw [List.length_set, k6])
+  exact this
+
+theorem Inv.mgLoopA' {C : Cfg} {s : St} (w : WF C) (h : Inv C s) (n : Nat) (hn : n < C.nets.length) (dt : ℚ) (chk : St → St)
+    (hchk : ∀ s2, Inv C s2 → Inv C (chk s2) ∧ AllClear C (chk s2) n) : Inv C (mgLoopA' C s n dt chk) := by
+  unfold Relsad.Control.mgLoopA'
+  simp only []
+  set s1 : St := { s with timer := s.timer.set n (if gr s.pTimer n > tick (gr s.timer n) dt then gr s.pTimer n else tick (gr s.timer n) dt),
+                          pTimer := s.pTimer.set n (tick (gr s.pTimer n) dt) } with hs1
+  have h1 : Inv C s1 := h.congr rfl rfl rfl rfl rfl rfl
+  have := Inv.loopCoreG w n hn s1 h1 chk hchk
+    (fun a => { a with check := a.check.set n false })
+    (by intro a; exact ⟨rfl, rfl, rfl, rfl, rfl, by simp⟩)
+  exact this
+
+theorem inv_foldl_pair {C : Cfg} (f : St × List Bool → Nat → St × List Bool) (ns : List Nat) (P : Nat → Prop) (hP : ∀ n ∈ ns, P n)
+    (hf : ∀ acc n, P n → Inv C acc.1 → Inv C (f acc n).1) (acc : St × List Bool) (h : Inv C acc.1) : Inv C (ns.foldl f acc).1 := by
+  induction ns generalizing acc with
+  | nil => exact h
+  | cons a as ih =>
+    simp only [List.foldl_cons]
+    exact ih (fun x hx => hP x (List.mem_cons_of_mem _ hx)) _ (hf acc a (hP a List.mem_cons_self) h)
+
+/-- **The isolation invariant survives devices in trouble**: whatever the sensors answer (time needed, false alarms of
+sensors under repair), whichever intelligent switches are failed and whatever can be reached, an increment of the
+device-aware loops keeps "no failed line is in service behind a closed breaker" (with its auxiliary clauses). -/
+theorem Inv.afterStepD {C : Cfg} {s : St} (w : WF C) (h : Inv C s) (dt : ℚ) (cd : CommD) (swF : List Bool) : Inv C (stepD C s dt cd swF) := by
+  unfold Relsad.Control.stepD
+  simp only []
+  have h0 : Inv C ((List.range C.lines.length).foldl (fun s l => Relsad.Control.lineUpdate C s l dt) s) :=
+    inv_foldl _ _ (fun _ => True) (fun _ _ => trivial) (fun s' l _ h' => h'.lineUpdate l dt) _ h
+  set s0 := (List.range C.lines.length).foldl (fun s l => Relsad.Control.lineUpdate C s l dt) s with hs0
+  have h1 : Inv C ({ s0 with check := (List.range C.nets.length).foldl (fun c n => if gb cd.recheck n then c.set n true else c) s0.check } : St) := by
+    refine h0.congr rfl rfl rfl rfl rfl ?_
+    have key : ∀ (ns : List Nat) (c : List Bool), (ns.foldl (fun c n => if gb cd.recheck n then c.set n true else c) c).length = c.length := by
+      intro ns
+      induction ns with
+      | nil => intro c; rfl
+      | cons a as ih => intro c; simp only [List.foldl_cons]; rw [ih]; split_ifs <;> simp
+    exact key _ _
+  refine inv_foldl_pair _ _ (fun n => n < C.nets.length) ?_ ?_ _ ?_
+  · intro n hn; exact List.mem_range.mp (List.mem_filter.mp hn).1
+  · intro acc n hn ha
+    rw [mgLoopD_fst]
+    exact ha.mgLoopA' w n hn dt _ (fun s2 h2 => h2.checkSensD w n hn cd acc.2)
+  refine inv_foldl_pair _ _ (fun n => n < C.nets.length) ?_ ?_ _ h1
+  · intro n hn; exact List.mem_range.mp (List.mem_filter.mp hn).1
+  · intro acc n hn ha
+    rw [distLoopD_fst]
+    exact ha.distLoopA' w n hn dt _ (fun s2 h2 => h2.checkSensD w n hn cd acc.2)
+
+/-! ### switch positions agree with lines, and nothing is out without a reason, with devices in trouble -/
+
+/-- the three invariants that survive false alarms (the second one, "a section is out only while it holds a failed
+line", does not: a sensor under repair keeps its section out) -/
+structure Trio (C : Cfg) (s : St) : Prop where
+  inv : Inv C s
+  sa : SA C s
+  g : G C s
+
+theorem remFold_conn_etc (T : ℚ) (ls : List Nat) (x : St) :
+    (ls.foldl (fun (s : St) l => { s with rem := s.rem.set l (gr s.rem l + T) }) x).dOpen = x.dOpen := remFold_dOpen T ls x
+
+theorem flagStepD_sw (C : Cfg) (n : Nat) (cd : CommD) (acc : St × List Bool) (k : Nat) :
+    (flagStepD C n cd acc k).1.dOpen = acc.1.dOpen ∧ (flagStepD C n cd acc k).1.cbOpen = acc.1.cbOpen ∧ (flagStepD C n cd acc k).1.conn = acc.1.conn := by
+  unfold flagStepD
+  simp only []
+  by_cases hf : reportedFail C acc.1 cd k = true
+  · rw [if_pos hf]
+    exact ⟨remFold_dOpen _ _ _, (remFold_fields _ _ _).2.2.1, (remFold_fields _ _ _).1⟩
+  · rw [if_neg hf]; exact ⟨rfl, rfl, rfl⟩
+
+theorem flagStepD_secDown (C : Cfg) (n : Nat) (cd : CommD) (acc : St × List Bool) (k : Nat) (j : Nat)
+    (hj : gb acc.1.secConn j = false) : gb (flagStepD C n cd acc k).1.secConn j = false := by
+  unfold flagStepD
+  simp only []
+  by_cases hf : reportedFail C acc.1 cd k = true
+  · rw [if_pos hf, (remFold_fields _ _ _).2.2.2.1]
+    show gb (acc.1.secConn.set k false) j = false
+    rw [gb_set]; split_ifs
+    · rfl
+    · exact hj
+  · rw [if_neg hf]; exact hj
+
+theorem trio_flagAllD {C : Cfg} (w : WF C) (n : Nat) (hn : n < C.nets.length) (cd : CommD) (ks : List Nat) (acc : St × List Bool)
+    (sa : SA C acc.1) (g : G C acc.1) : SA C (ks.foldl (flagStepD C n cd) acc).1 ∧ G C (ks.foldl (flagStepD C n cd) acc).1 := by
+  induction ks generalizing acc with
+  | nil => exact ⟨sa, g⟩
+  | cons a as ih =>
+    simp only [List.foldl_cons]
+    obtain ⟨e1, e2, e3⟩ := flagStepD_sw C n cd acc a
+    refine ih (flagStepD C n cd acc a) (sa.congr e1 e2 e3) ?_
+    exact g.of_opensG ⟨⟨fun i h => by rw [e3] at h; exact h, fun d h => by rw [e1]; exact h, fun c h => by rw [e2]; exact h⟩, by rw [e1],
+      fun j hj => flagStepD_secDown C n cd acc a j hj,
+      fun l _ h => Or.inl (by rw [e3] at h; exact h), fun d _ h => Or.inl (by rw [e1] at h; exact h)⟩
+
+theorem trio_recoAllD {C : Cfg} (w : WF C) (w2 : WF2 C) (n : Nat) (hn : n < C.nets.length) (cd : CommD) (ks : List Nat) (s : St) (h : Inv C s)
+    (hA : AllClear C s n) (sa : SA C s) (g : G C s) (hks : ∀ k ∈ ks, k ∈ (netOf C n).secs) :
+    SA C (ks.foldl (recoStepD C n cd) s) ∧ G C (ks.foldl (recoStepD C n cd) s) := by
+  induction ks generalizing s with
+  | nil => exact ⟨sa, g⟩
+  | cons a as ih =>
+    simp only [List.foldl_cons]
+    have ha := hks a List.mem_cons_self
+    obtain ⟨i1, a1, _, _⟩ := recoStepD_spec w n hn cd s h hA a ha
+    set s0 : St := { s with timer := s.timer.set n (gr s.timer n + sensSum C cd a) } with hs0
+    have h0 : Inv C s0 := h.congr rfl rfl rfl rfl rfl rfl
+    have sa0 : SA C s0 := sa.congr rfl rfl rfl
+    have g0 : G C s0 := g.congr rfl rfl rfl rfl
+    have both : SA C (recoStepD C n cd s a) ∧ G C (recoStepD C n cd s a) := by
+      unfold recoStepD
+      simp only []
+      split_ifs
+      · exact ⟨sa0, g0⟩
+      · exact ⟨(sa0.reconnect w w2 h0.sz n hn a ha).congr rfl rfl rfl, (g0.reconnect w w2 h0.sz n hn a ha).congr rfl rfl rfl rfl⟩
+    exact ih (recoStepD C n cd s a) i1 a1 both.1 both.2 (fun k hk => hks k (List.mem_cons_of_mem _ hk))
+
+theorem Trio.checkSensD {C : Cfg} {s : St} (w : WF C) (w2 : WF2 C) (t : Trio C s) (n : Nat) (hn : n < C.nets.length) (cd : CommD) (swF : List Bool) :
+    SA C (checkSensorsD C s n cd swF).1 ∧ G C (checkSensorsD C s n cd swF).1 := by
+  unfold checkSensorsD
+  simp only []
+  have fa := flagAllD w n hn cd ((netOf C n).secs.filter (fun k => gb s.secConn k)) (s, swF) t.inv (fun k hk => (List.mem_filter.mp hk).1)
+  obtain ⟨sa1, g1⟩ := trio_flagAllD w n hn cd ((netOf C n).secs.filter (fun k => gb s.secConn k)) (s, swF) t.sa t.g
+  have hA : AllClear C (((netOf C n).secs.filter (fun k => gb s.secConn k)).foldl (flagStepD C n cd) (s, swF)).1 n := by
+    intro k hk hsc l hl
+    rw [fa.failed]
+    have hs := fa.secMono k hsc
+    exact fa.clear k (List.mem_filter.mpr ⟨hk, hs⟩) hsc l hl
+  exact trio_recoAllD w w2 n hn cd ((netOf C n).secs.filter (fun k => !gb s.secConn k)) _ fa.inv hA sa1 g1 (fun k hk => (List.mem_filter.mp hk).1)
+
+/-- the shared tail of a control loop for the three invariants, any component check -/
+theorem Trio.loopTail {C : Cfg} (w : WF C) (w2 : WF2 C) (n : Nat) (hn : n < C.nets.length) (s1 : St) (t1 : Trio C s1) (chk : St → St)
+    (hchk : ∀ s2, Trio C s2 → (Inv C (chk s2) ∧ AllClear C (chk s2) n) ∧ SA C (chk s2) ∧ G C (chk s2))
+    (g : St → St)
+    (hg : ∀ a, (g a).conn = a.conn ∧ (g a).failed = a.failed ∧ (g a).cbOpen = a.cbOpen ∧ (g a).secConn = a.secConn ∧
+      (g a).failedSecs = a.failedSecs ∧ (g a).check = a.check)
+    (hgd : ∀ a, (g a).dOpen = a.dOpen) :
+    Trio C (checkBreakerManually C
+      (if gb (if gb s1.cbOpen (C.nets.getD n default).cb && decide (gr s1.timer n ≤ 0) then { s1 with check := s1.check.set n true } else s1).check n
+       then { g (chk (if gb s1.cbOpen (C.nets.getD n default).cb && decide (gr s1.timer n ≤ 0) then { s1 with check := s1.check.set n true } else s1)) with
+              check := (g (chk (if gb s1.cbOpen (C.nets.getD n default).cb && decide (gr s1.timer n ≤ 0) then { s1 with check := s1.check.set n true } else s1))).check.set n false }
+       else (if gb s1.cbOpen (C.nets.getD n default).cb && decide (gr s1.timer n ≤ 0) then { s1 with check := s1.check.set n true } else s1)) n) := by
+  set s2 : St := (if gb s1.cbOpen (C.nets.getD n default).cb && decide (gr s1.timer n ≤ 0) then { s1 with check := s1.check.set n true } else s1) with hs2
+  have t2 : Trio C s2 := by
+    rw [hs2]; split_ifs
+    · exact ⟨t1.inv.congr rfl rfl rfl rfl rfl (by simp), t1.sa.congr rfl rfl rfl, t1.g.congr rfl rfl rfl rfl⟩
+    · exact t1
+  have hcb2 : s2.cbOpen = s1.cbOpen := by rw [hs2]; split_ifs <;> rfl
+  have ht2 : s2.timer = s1.timer := by rw [hs2]; split_ifs <;> rfl
+  by_cases hck : gb s2.check n = true
+  · rw [if_pos hck]
+    obtain ⟨⟨i3, a3⟩, sa3, g3⟩ := hchk s2 t2
+    obtain ⟨g1, g2, g3', g4, g5, g6⟩ := hg (chk s2)
+    have i4 : Inv C { g (chk s2) with check := (g (chk s2)).check.set n false } := i3.congr g1 g2 g3' g4 g5 (by simp [g6])
+    have sa4 : SA C { g (chk s2) with check := (g (chk s2)).check.set n false } := sa3.congr (hgd _) g3' g1
+    have gg4 : G C { g (chk s2) with check := (g (chk s2)).check.set n false } := g3.congr g1 (hgd _) g3' g4
+    exact ⟨i4.checkBreaker w n hn (fun _ _ => a3.congr g4 g2), sa4.checkBreaker w w2 i4 n hn, gg4.checkBreaker w w2 i4 n hn⟩
+  · rw [if_neg hck]
+    refine ⟨t2.inv.checkBreaker w n hn ?_, t2.sa.checkBreaker w w2 t2.inv n hn, t2.g.checkBreaker w w2 t2.inv n hn⟩
+    intro hopen htimer
+    exfalso; apply hck
+    have hcond : (gb s1.cbOpen (C.nets.getD n default).cb && decide (gr s1.timer n ≤ 0)) = true := by
+      rw [hcb2] at hopen; rw [ht2] at htimer
+      simp only [Bool.and_eq_true, decide_eq_true_eq]
+      exact ⟨hopen, htimer⟩
+    rw [hs2, if_pos hcond]
+    show gb (s1.check.set n true) n = true
+    exact gb_set_self _ _ _ (by rw [t1.inv.sz.check]; exact hn)
+
+theorem Trio.distLoopA' {C : Cfg} {s : St} (w : WF C) (w2 : WF2 C) (t : Trio C s) (n : Nat) (hn : n < C.nets.length) (dt : ℚ) (chk : St → St)
+    (hchk : ∀ s2, Trio C s2 → (Inv C (chk s2) ∧ AllClear C (chk s2) n) ∧ SA C (chk s2) ∧ G C (chk s2)) : Trio C (distLoopA' C s n dt chk) := by
+  unfold Relsad.Control.distLoopA'
+  simp only []
+  have t1 : Trio C { s with timer := s.timer.set n (tick (gr s.timer n) dt) } :=
+    ⟨t.inv.congr rfl rfl rfl rfl rfl rfl, t.sa.congr rfl rfl rfl, t.g.congr rfl rfl rfl rfl⟩
+  exact Trio.loopTail w w2 n hn _ t1 chk hchk
+    (fun a => (C.nets.getD n default).children.foldl (fun (s : St) m =>
+        if gb s.cbOpen (C.nets.getD m default).cb then { s with pTimer := s.pTimer.set m (gr s.timer n) } else s) a)
+    (fun a => childFold_fields C n _ a) (fun a => childFold_dOpen C n _ a)
+
+theorem Trio.mgLoopA' {C : Cfg} {s : St} (w : WF C) (w2 : WF2 C) (t : Trio C s) (n : Nat) (hn : n < C.nets.length) (dt : ℚ) (chk : St → St)
+    (hchk : ∀ s2, Trio C s2 → (Inv C (chk s2) ∧ AllClear C (chk s2) n) ∧ SA C (chk s2) ∧ G C (chk s2)) : Trio C (mgLoopA' C s n dt chk) := by
+  unfold Relsad.Control.mgLoopA'
+  simp only []
+  have t1 : Trio C ({ s with timer := s.timer.set n (if gr s.pTimer n > tick (gr s.timer n) dt then gr s.pTimer n else tick (gr s.timer n) dt),
+                             pTimer := s.pTimer.set n (tick (gr s.pTimer n) dt) } : St) :=
+    ⟨t.inv.congr rfl rfl rfl rfl rfl rfl, t.sa.congr rfl rfl rfl, t.g.congr rfl rfl rfl rfl⟩
+  exact Trio.loopTail w w2 n hn _ t1 chk hchk (fun a => a) (fun a => ⟨rfl, rfl, rfl, rfl, rfl, rfl⟩) (fun _ => rfl)
+
+theorem trio_foldl_pair {C : Cfg} (f : St × List Bool → Nat → St × List Bool) (ns : List Nat) (P : Nat → Prop) (hP : ∀ n ∈ ns, P n)
+    (hf : ∀ acc n, P n → Trio C acc.1 → Trio C (f acc n).1) (acc : St × List Bool) (h : Trio C acc.1) : Trio C (ns.foldl f acc).1 := by
+  induction ns generalizing acc with
+  | nil => exact h
+  | cons a as ih =>
+    simp only [List.foldl_cons]
+    exact ih (fun x hx => hP x (List.mem_cons_of_mem _ hx)) _ (hf acc a (hP a List.mem_cons_self) h)
+
+theorem Trio.afterStepD {C : Cfg} {s : St} (w : WF C) (w2 : WF2 C) (t : Trio C s) (dt : ℚ) (cd : CommD) (swF : List Bool) :
+    Trio C (stepD C s dt cd swF) := by
+  unfold Relsad.Control.stepD
+  simp only []
+  have key : ∀ (ls : List Nat) (x : St), Trio C x → Trio C (ls.foldl (fun s l => Relsad.Control.lineUpdate C s l dt) x) := by
+    intro ls
+    induction ls with
+    | nil => intro x hx; exact hx
+    | cons a as ih =>
+      intro x hx
+      simp only [List.foldl_cons]
+      obtain ⟨e1, e2, e3⟩ := lineUpdate_sw C x a dt
+      exact ih _ ⟨hx.inv.lineUpdate a dt, hx.sa.congr e1 e2 e3, hx.g.congr e3 e1 e2 (lineUpdate_secConn C x a dt)⟩
+  have h0 := key (List.range C.lines.length) s t
+  set s0 := (List.range C.lines.length).foldl (fun s l => Relsad.Control.lineUpdate C s l dt) s with hs0
+  have h1 : Trio C ({ s0 with check := (List.range C.nets.length).foldl (fun c n => if gb cd.recheck n then c.set n true else c) s0.check } : St) := by
+    have klen : ∀ (ns : List Nat) (c : List Bool), (ns.foldl (fun c n => if gb cd.recheck n then c.set n true else c) c).length = c.length := by
+      intro ns
+      induction ns with
+      | nil => intro c; rfl
+      | cons a as ih => intro c; simp only [List.foldl_cons]; rw [ih]; split_ifs <;> simp
+    exact ⟨h0.inv.congr rfl rfl rfl rfl rfl (klen _ _), h0.sa.congr rfl rfl rfl, h0.g.congr rfl rfl rfl rfl⟩
+  have hchk : ∀ (n : Nat), n < C.nets.length → ∀ (sw : List Bool) (s2 : St), Trio C s2 →
+      (Inv C (checkSensorsD C s2 n cd sw).1 ∧ AllClear C (checkSensorsD C s2 n cd sw).1 n) ∧ SA C (checkSensorsD C s2 n cd sw).1 ∧ G C (checkSensorsD C s2 n cd sw).1 :=
+    fun n hn sw s2 t2 => ⟨t2.inv.checkSensD w n hn cd sw, Trio.checkSensD w w2 t2 n hn cd sw⟩
+  refine trio_foldl_pair _ _ (fun n => n < C.nets.length) ?_ ?_ _ ?_
+  · intro n hn; exact List.mem_range.mp (List.mem_filter.mp hn).1
+  · intro acc n hn ha
+    rw [mgLoopD_fst]
+    exact ha.mgLoopA' w w2 n hn dt _ (hchk n hn acc.2)
+  refine trio_foldl_pair _ _ (fun n => n < C.nets.length) ?_ ?_ _ h1
+  · intro n hn; exact List.mem_range.mp (List.mem_filter.mp hn).1
+  · intro acc n hn ha
+    rw [distLoopD_fst]
+    exact ha.distLoopA' w w2 n hn dt _ (hchk n hn acc.2)
+
+theorem Trio.of_quad {C : Cfg} {s : St} (q : Quad C s) : Trio C s := ⟨q.triple.both.inv, q.triple.sa, q.g⟩
+
+/-- a manual increment keeps the three invariants (no hypothesis about the second invariant needed) -/
+theorem stepTrio {C : Cfg} {s : St} (w : WF C) (w2 : WF2 C) (t : Trio C s) (dt : ℚ) : Trio C (step C s dt) := by
+  have e : step C s dt =
+      ((List.range C.nets.length).filter (fun n => isMg C n)).foldl (fun s n => mgLoopA' C s n dt (fun x => checkLinesManually C x n))
+        (((List.range C.nets.length).filter (fun n => !isMg C n)).foldl (fun s n => distLoopA' C s n dt (fun x => checkLinesManually C x n))
+          ((List.range C.lines.length).foldl (fun s l => lineUpdate C s l dt) s)) := rfl
+  rw [e]
+  have key : ∀ (ls : List Nat) (x : St), Trio C x → Trio C (ls.foldl (fun s l => lineUpdate C s l dt) x) := by
+    intro ls
+    induction ls with
+    | nil => intro x hx; exact hx
+    | cons a as ih =>
+      intro x hx
+      simp only [List.foldl_cons]
+      obtain ⟨e1, e2, e3⟩ := lineUpdate_sw C x a dt
+      exact ih _ ⟨hx.inv.lineUpdate a dt, hx.sa.congr e1 e2 e3, hx.g.congr e3 e1 e2 (lineUpdate_secConn C x a dt)⟩
+  have hchk : ∀ (n : Nat), n < C.nets.length → ∀ (s2 : St), Trio C s2 →
+      (Inv C (checkLinesManually C s2 n) ∧ AllClear C (checkLinesManually C s2 n) n) ∧ SA C (checkLinesManually C s2 n) ∧ G C (checkLinesManually C s2 n) :=
+    fun n hn s2 t2 => ⟨by obtain ⟨i, a, _, _⟩ := t2.inv.checkLines w n hn; exact ⟨i, a⟩, t2.sa.checkLines w w2 t2.inv n hn, t2.g.checkLines w w2 t2.inv n hn⟩
+  have fold : ∀ (f : St → Nat → St) (ns : List Nat), (∀ n ∈ ns, n < C.nets.length) → (∀ x n, n < C.nets.length → Trio C x → Trio C (f x n)) →
+      ∀ x, Trio C x → Trio C (ns.foldl f x) := by
+    intro f ns
+    induction ns with
+    | nil => intro _ _ x hx; exact hx
+    | cons a as ih =>
+      intro hin hf x hx
+      simp only [List.foldl_cons]
+      exact ih (fun n hn => hin n (List.mem_cons_of_mem _ hn)) hf _ (hf x a (hin a List.mem_cons_self) hx)
+  refine fold _ _ (fun n hn => List.mem_range.mp (List.mem_filter.mp hn).1) (fun x n hn hx => hx.mgLoopA' w w2 n hn dt _ (hchk n hn)) _ ?_
+  refine fold _ _ (fun n hn => List.mem_range.mp (List.mem_filter.mp hn).1) (fun x n hn hx => hx.distLoopA' w w2 n hn dt _ (hchk n hn)) _ ?_
+  exact key _ s t
+
+theorem stepATrio {C : Cfg} {s : St} (w : WF C) (w2 : WF2 C) (t : Trio C s) (dt : ℚ) (cm : Comm) : Trio C (stepA C s dt cm) := by
+  have e : stepA C s dt cm =
+      ((List.range C.nets.length).filter (fun n => isMg C n)).foldl (fun s n => mgLoopA' C s n dt (fun x => checkSensors C x n cm))
+        (((List.range C.nets.length).filter (fun n => !isMg C n)).foldl (fun s n => distLoopA' C s n dt (fun x => checkSensors C x n cm))
+          ((List.range C.lines.length).foldl (fun s l => lineUpdate C s l dt) s)) := rfl
+  rw [e]
+  have key : ∀ (ls : List Nat) (x : St), Trio C x → Trio C (ls.foldl (fun s l => lineUpdate C s l dt) x) := by
+    intro ls
+    induction ls with
+    | nil => intro x hx; exact hx
+    | cons a as ih =>
+      intro x hx
+      simp only [List.foldl_cons]
+      obtain ⟨e1, e2, e3⟩ := lineUpdate_sw C x a dt
+      exact ih _ ⟨hx.inv.lineUpdate a dt, hx.sa.congr e1 e2 e3, hx.g.congr e3 e1 e2 (lineUpdate_secConn C x a dt)⟩
+  have hchk : ∀ (n : Nat), n < C.nets.length → ∀ (s2 : St), Trio C s2 →
+      (Inv C (checkSensors C s2 n cm) ∧ AllClear C (checkSensors C s2 n cm) n) ∧ SA C (checkSensors C s2 n cm) ∧ G C (checkSensors C s2 n cm) :=
+    fun n hn s2 t2 => ⟨t2.inv.checkSens w n hn cm, t2.sa.checkSens w w2 t2.inv n hn cm, t2.g.checkSens w w2 t2.inv n hn cm⟩
+  have fold : ∀ (f : St → Nat → St) (ns : List Nat), (∀ n ∈ ns, n < C.nets.length) → (∀ x n, n < C.nets.length → Trio C x → Trio C (f x n)) →
+      ∀ x, Trio C x → Trio C (ns.foldl f x) := by
+    intro f ns
+    induction ns with
+    | nil => intro _ _ x hx; exact hx
+    | cons a as ih =>
+      intro hin hf x hx
+      simp only [List.foldl_cons]
+      exact ih (fun n hn => hin n (List.mem_cons_of_mem _ hn)) hf _ (hf x a (hin a List.mem_cons_self) hx)
+  refine fold _ _ (fun n hn => List.mem_range.mp (List.mem_filter.mp hn).1) (fun x n hn hx => hx.mgLoopA' w w2 n hn dt _ (hchk n hn)) _ ?_
+  refine fold _ _ (fun n hn => List.mem_range.mp (List.mem_filter.mp hn).1) (fun x n hn hx => hx.distLoopA' w w2 n hn dt _ (hchk n hn)) _ ?_
+  exact key _ s t
+
 end Relsad.Control
